@@ -103,8 +103,10 @@ decreasing_by omega
 /-- Python `i.bit_length()` -/
 def bitLength (i : Int) : Int := natBits i.natAbs
 
-def shl (a b : Int) : Int := a * 2 ^ b.toNat
-def shr (a b : Int) : Int := a / 2 ^ b.toNat
+/-- Python `a << b` (raises ValueError on a negative shift count) -/
+def shl (a b : Int) : Except PyErr Int := if b < 0 then .error .valueError else .ok (a * 2 ^ b.toNat)
+/-- Python `a >> b` -/
+def shr (a b : Int) : Except PyErr Int := if b < 0 then .error .valueError else .ok (a / 2 ^ b.toNat)
 
 /-- Python `&` on unbounded two's-complement ints -/
 def land : Int → Int → Int
